@@ -2,7 +2,7 @@
 import json, os
 import vlib
 SRC = ["harness/c01_roundtrip.c", "ref/ref_xz.c", "ref/ref_lzma.c", "ref/ref_check.c"]
-FAMS = ["k1", "k2", "k3", "k4", "k5", "k6", "k7", "bound"]
+FAMS = ["k1", "k2", "k3", "k4", "k5", "k6", "k7", "k8", "bound"]
 
 
 def run_shared(pid, tier):
